@@ -17,7 +17,7 @@ Line protocol of C13 (one operation per line, one answer per line):
   guards <disease> <method>               -> ok <n>                  number of guard atoms of the generated function
   treat <product> <flagbits> <guards>     -> ok b|b|...              syphilis treatment round (Generated/Treat_syphilis.lean)
   finer <r> <k>                           -> ok <lo> <hi>            module step indices seen while sim.ti = k (module r times finer)
-  coarser <c> <j>                         -> ok <k>                  sim.ti during module step j (module c times coarser)
+  coarser <c> <j>                         -> ok <k> <lo> <hi>        sim.ti during the module's own step j; sim.ti range at which its index reads j
   <disease> <method> <flagbits> <guards>  -> ok b|b|...              flag bits after the generated per-agent function
 
 <flagbits> is a string of 0/1 in the order of `names`; <guards> is a string of 0/1/? in the order of the generated
@@ -93,7 +93,9 @@ def stepLine (u : Unit) (line : String) : Unit × String :=
       | _, _ => (u, "bad-op")
   | ["coarser", c, j] =>
       match c.toNat?, j.toNat? with
-      | some c, some j => if c = 0 then (u, "bad-op") else (u, s!"ok {TimerOps.simIndexCoarse c j}")
+      | some c, some j => if c = 0 then (u, "bad-op") else 
+          let p := TimerOps.simIndexRangeCoarse c j
+          (u, s!"ok {TimerOps.simIndexCoarse c j} {p.1} {p.2}")
       | _, _ => (u, "bad-op")
   | ["treat", prod, fb, gb] =>
       match parseBits fb, parseBits gb with
